@@ -105,6 +105,33 @@ class RefMap:
             return vt(self.get(p[1]))
         if o == "entocc":
             return "occ" if self.get(p[1]) is not None else "vac"
+        # the rest of the Entry API: the entry of a key is occupied iff a lookup finds a value (a
+        # reserved position holds nothing: vacant, and a vacant insert lands on it)
+        if o == "entwith":
+            if self.get(p[1]) is None:
+                self.put(p[1], int(p[2]))
+            return vt(self.get(p[1]))
+        if o == "entrem":
+            old = self.get(p[1])
+            if old is None:
+                return "vac"
+            self.erase(p[1])                    # the others keep their order
+            return vt(old)
+        if o == "entins":
+            old = self.get(p[1])
+            self.put(p[1], int(p[2]))           # occupied: position kept; vacant: appended
+            return f"{'vac' if old is None else vt(old)}>v{int(p[2])}"
+        if o == "entget":
+            v = self.get(p[1])
+            return f"vac:{p[1]}" if v is None else f"{p[1]}={vt(v)}"
+        if o == "entmut":
+            old = self.get(p[1])
+            if old is None:
+                return "vac"
+            self.put(p[1], int(p[2]))
+            return f"{vt(old)}>v{int(p[2])}"
+        if o == "entkey":
+            return f"{'vac' if self.get(p[1]) is None else 'occ'}:{p[1]}"
         if o == "idx":
             v = self.get(p[1])
             return "panic" if v is None else vt(v)
@@ -302,6 +329,11 @@ def reference(container):
     return RefDict(container)
 
 
+ENTRY_CLASSIFY = ("entocc", "entrem", "entins", "entget", "entmut", "entkey")      # show Occupied / Vacant
+ENTRY_OR_INSERT = ("entry", "entwith")                                             # or_insert / or_insert_with
+ENTRY_API = ENTRY_CLASSIFY + ENTRY_OR_INSERT
+
+
 def split_case(case):
     container, _, rest = case.partition(" ")
     ops = [o for o in rest.split(";") if o and o != "-"]
@@ -320,9 +352,14 @@ def oracle(case, out):
     if len(rets) != len(ops):
         return ("shape", out[:80], f"{len(ops)} results")
     for i, (o, got) in enumerate(zip(ops, rets)):
-        want = ref.op(o.split(" "))
+        p = o.split(" ")
+        # an Entry API call on a key whose position is a reservation (`Item::None`) is the corner of the known
+        # findings; the same call deviating on any other key is a class of its own (`<op>/plain`)
+        plain = (p[0] in ENTRY_API and isinstance(ref, RefMap)
+                 and not (ref.pos(p[1]) is not None and ref.get(p[1]) is None))
+        want = ref.op(p)
         if got != want:
-            return (o.split(" ")[0], f"op {i + 1} `{o}` returned {got}", want)
+            return (p[0] + ("/plain" if plain else ""), f"op {i + 1} `{o}` returned {got}", want)
     fin = dict(f.split("=", 1) for f in right.split(" "))
     want = ref.final()
     for field in ("len", "empty", "iter", "get", "into", "print"):
@@ -343,11 +380,12 @@ def cause_of(container, where):
         return "impl TableLike for InlineTable: iter/iter_mut/get/get_mut show Item::None placeholders"
     if container in ("table", "tablelike") and where in ("ins", "insf", "rem", "reme"):
         return "Table::insert/insert_formatted/remove/remove_entry return Some(Item::None) for a placeholder"
-    if container == "inline" and where in ("entry", "entocc"):
+    if container == "inline" and where in ENTRY_API:
         return "InlineTable::entry turns a placeholder into the value {}"
-    if where == "entry":
+    if where in ENTRY_OR_INSERT:
         return "Entry::or_insert keeps an Item::None placeholder instead of storing the default"
-    if where == "entocc":
+    if where in ENTRY_CLASSIFY:
+        # what an Occupied entry of a placeholder lets through (remove/insert/get/get_mut/key on `Item::None`) included
         return "entry() is Occupied for an Item::None placeholder"
     if container == "table" and where == "final.into":
         return "Table::into_iter yields Item::None placeholders"
@@ -362,9 +400,9 @@ def cause_of(container, where):
 W_TABLE = [("ins", 10), ("insf", 4), ("rem", 7), ("reme", 3), ("get", 4), ("getmut", 2), ("gkv", 2), ("has", 3),
            ("hasv", 1), ("hast", 1), ("len", 3), ("empty", 2), ("iter", 3), ("keys", 2), ("clear", 1), ("entry", 5),
            ("entocc", 3), ("idx", 2), ("idxmut", 7), ("idxset", 4), ("retain", 2), ("sort", 2), ("sortby", 2),
-           ("extend", 2)]
+           ("extend", 2), ("entrem", 5), ("entins", 5), ("entget", 2), ("entmut", 3), ("entwith", 2), ("entkey", 2)]
 LIKE_OPS = {"ins", "rem", "get", "getmut", "gkv", "has", "len", "empty", "iter", "keys", "clear", "entry", "entocc",
-            "idx", "idxmut", "idxset", "sort"}
+            "idx", "idxmut", "idxset", "sort", "entrem", "entins", "entget", "entmut", "entwith", "entkey"}
 W_INLINE = [(o, w) for o, w in W_TABLE if o not in ("hasv", "hast")]
 W_LIKE = [(o, w) for o, w in W_TABLE if o in LIKE_OPS]
 W_ARRAY = [("push", 8), ("ins", 6), ("repl", 5), ("rem", 6), ("get", 4), ("getmut", 1), ("len", 3), ("empty", 2),
@@ -408,9 +446,10 @@ def gen_history(rng, container, n, placeholders=True):
             else:
                 s = o
             vec.op(s.split(" "))
-        elif o in ("ins", "insf", "entry", "idxset"):
+        elif o in ("ins", "insf", "entry", "idxset", "entins", "entmut", "entwith"):
             s = f"{o} {key()} {val()}"
-        elif o in ("rem", "reme", "get", "getmut", "gkv", "has", "hasv", "hast", "entocc", "idx", "idxmut"):
+        elif o in ("rem", "reme", "get", "getmut", "gkv", "has", "hasv", "hast", "entocc", "idx", "idxmut", "entrem",
+                   "entget", "entkey"):
             s = f"{o} {key()}"
         elif o == "extend":
             s = "extend " + " ".join(f"{key()} {val()}" for _ in range(rng.randrange(1, 4)))
@@ -454,7 +493,48 @@ REGRESSIONS = [
     "mapsorted ins c 1;ins a 2;ins b 3;rem a;iter",
     "array push 1;push 2;ins 0 5;repl 1 7;rem 0;ins 9 1;repl 9 1;rem 9",
     "aot push 1;push 2;rem 0;rem 5",
+    # the Entry API beyond or_insert: removal through an occupied entry keeps the order of the others, insert over an
+    # occupied entry keeps the position, a vacant insert appends (kept after the histories above: the first failing
+    # regression history of a cause is its witness)
+    "table ins a 0;ins b 1;ins c 2;ins d 3;entrem a;iter",
+    "tablelike ins a 0;ins b 1;ins c 2;ins d 3;entrem a;iter",
+    "inline ins a 0;ins b 1;ins c 2;ins d 3;entrem a;iter",
+    "inlinelike ins a 0;ins b 1;ins c 2;ins d 3;entrem a;iter",
+    "table ins a 0;ins b 1;ins c 2;entrem b;entrem b;entins a 5;entins b 6;entins d 7;iter",
+    "inline ins a 0;ins b 1;ins c 2;entrem b;entrem b;entins a 5;entins b 6;entins d 7;iter",
+    "tablelike ins a 0;ins b 1;entget a;entget c;entmut a 4;entmut c 5;entwith b 6;entwith c 7;entkey a;entkey d;iter",
+    "inline ins a 0;ins b 1;entget a;entget c;entmut a 4;entmut c 5;entwith b 6;entwith c 7;entkey a;entkey d;iter",
+    "inlinelike ins a 0;ins b 1;entget a;entget c;entmut a 4;entmut c 5;entwith b 6;entwith c 7;entkey a;entkey d;iter",
+    # the same calls on a placeholder: the corner of the known findings (entry() is Occupied for an Item::None;
+    # InlineTable::entry writes {} over it)
+    "table idxmut a;entrem a", "table idxmut a;entins a 1", "table idxmut a;entget a", "table idxmut a;entmut a 1",
+    "table idxmut a;entwith a 1", "table idxmut a;entkey a",
+    "tablelike idxmut a;entrem a", "inlinelike idxmut a;entmut a 1", "docinline entget a", "docinline entrem a;ins a 1",
+    "inline idxmut a;entrem a", "inline idxmut a;entins a 1", "inline idxmut a;entget a", "inline idxmut a;entmut a 1",
+    "inline idxmut a;entwith a 1", "inline idxmut a;entkey a",
 ]
+
+
+def entry_systematic():
+    """every Entry API call (and every ordered pair of them) on every key of a 3- and a 4-entry map, each dialect;
+    single calls also next to a placeholder"""
+    calls = lambda k: [f"entrem {k}", f"entins {k} 7", f"entget {k}", f"entmut {k} 8", f"entwith {k} 9", f"entkey {k}",
+                       f"entry {k} 6", f"entocc {k}"]
+    out = []
+    for c in ("table", "tablelike", "inline", "inlinelike"):
+        fills = ["ins a 0;ins b 1;ins c 2", "ins a 0;ins b 1;ins c 2;ins d 3", "ins d 3;ins a 0;idxmut c;ins b 1",
+                 "idxmut b;ins a 0;ins c 2;ins d 3"]
+        for fill in fills:
+            for k in KEYS:
+                for o in calls(k):
+                    out.append(f"{c} {fill};{o};iter;keys;len")
+        fill = fills[1]
+        for k1 in KEYS:
+            for o1 in calls(k1)[:6]:
+                for k2 in KEYS:
+                    for o2 in calls(k2)[:6]:
+                        out.append(f"{c} {fill};{o1};{o2};iter")
+    return out
 
 
 WIDE_KEYS = list(KEYS) + [f"k{i:02}" for i in range(40)]      # string order = model key index order
@@ -521,8 +601,10 @@ def gen_wide(rng, container):
             do(f"ins {k} {val()}")
         elif r < 0.82 and maplike and not like:
             do(f"insf {k} {val()}")
-        elif r < 0.9:
+        elif r < 0.86:
             do(f"entry {k} {val()}")
+        elif r < 0.93 and maplike:
+            do(f"{rng.choice(['entins', 'entins', 'entwith'])} {k} {val()}")      # vacant insert appends
         elif maplike:
             do(f"idxset {k} {val()}")
         else:
@@ -530,18 +612,20 @@ def gen_wide(rng, container):
     if ismap:
         pool = ["retain", "rem", "rem", "rem", "ins", "iter", "keys", "values", "entry", "extend"]
     elif like:
-        pool = ["sort", "rem", "rem", "ins", "iter", "keys", "entry", "idxmut", "len"]
+        pool = ["sort", "rem", "rem", "ins", "iter", "keys", "entry", "idxmut", "len", "entrem", "entrem", "entrem",
+                "entins", "entmut", "entget", "entwith", "entkey"]
     else:
         pool = ["sortby"] * 4 + ["sort", "retain", "rem", "rem", "reme", "ins", "insf", "iter", "keys", "entry",
-                                 "idxmut", "extend", "len"]
+                                 "idxmut", "extend", "len", "entrem", "entrem", "entrem", "entins", "entmut", "entget",
+                                 "entwith", "entkey"]
     present = lambda: [k for k in WIDE_KEYS if ref.get(k) is not None] if maplike else list(ref.d.keys())
     for _ in range(rng.randrange(3, 12)):
         o = rng.choice(pool)
         have = present()
         anyk = rng.choice(have) if have and rng.random() < 0.8 else rng.choice(WIDE_KEYS)
-        if o in ("rem", "reme", "idxmut"):
+        if o in ("rem", "reme", "idxmut", "entrem", "entget", "entkey"):
             do(f"{o} {anyk}")
-        elif o in ("ins", "insf", "entry"):
+        elif o in ("ins", "insf", "entry", "entins", "entmut", "entwith"):
             do(f"{o} {anyk} {val()}")
         elif o == "extend":
             do("extend " + " ".join(f"{rng.choice(have) if have and rng.random() < 0.5 else rng.choice(WIDE_KEYS)} {val()}" for _ in range(rng.randrange(1, 4))))
@@ -555,6 +639,8 @@ def wide_regressions():
     kv = [(f"k{i:02}", (i * 7) % 3) for i in range(24)]
     ins = ";".join(f"ins {k} {v}" for k, v in kv)
     out = [f"table {ins};sortby;iter", f"inline {ins};sortby;iter",
+           f"table {ins};entrem k03;entins k07 5;entins a 1;entrem k00;iter", f"inline {ins};entrem k03;entins k07 5;entins a 1;entrem k00;iter",
+           f"tablelike {ins};entrem k03;entmut k07 5;entwith a 1;entrem k00;iter", f"inlinelike {ins};entrem k03;entmut k07 5;entwith a 1;entrem k00;iter",
            f"table {ins};sort;retain;rem k12;reme k00;iter", f"inline {ins};sort;retain;rem k12;reme k00;iter",
            # the one undecorated element (first push) sits in the middle of its tie group after the inserts at 0
            "array push 1;" + ";".join(f"ins 0 {(i * 7) % 3}" for i in range(23)) + ";sortby;iter",
@@ -571,7 +657,7 @@ def gen(ctx):
     share = {"table": 5, "tablelike": 2, "inline": 4, "inlinelike": 2, "docinline": 1, "array": 3, "aot": 1,
              "mapsorted": 2, "mapinsertion": 2}
     tot = sum(share.values())
-    cases = list(REGRESSIONS) + wide_regressions()
+    cases = list(REGRESSIONS) + wide_regressions() + entry_systematic()
     for c, s in share.items():
         for i in range(total * s // tot):
             n = rng.randrange(1, 31) if (quick or rng.random() < 0.8) else rng.randrange(31, maxlen + 1)
@@ -669,7 +755,7 @@ def run(ctx):
         for o in ops:
             p = o.split(" ")
             size = len(ref.l) if container in ("array", "aot") else (len(ref.entries()) if container in MAPLIKE else len(ref.d))
-            if size >= 21 and p[0] in ("sortby", "sort", "retain", "rem", "reme"):
+            if size >= 21 and p[0] in ("sortby", "sort", "retain", "rem", "reme", "entrem"):
                 big_calls[f"{container}:{p[0]}"] = big_calls.get(f"{container}:{p[0]}", 0) + 1
                 hit = True
             ref.op(p)
@@ -718,13 +804,15 @@ def run(ctx):
             ctx.violation(f"obligation no longer checks: {n}", {"unchecked": n, "detail": d[:1500], "searched": f"{len(cases)} histories against the reference ordered map / vector"}, concrete=False)
     ctx.cov.update({
         "evaluations": len(cases), "distinct_nontrivial": len(nontriv),
-        "rule": "random histories of API calls (length 1-30, thorough up to 200) over keys a-d (2-4 of them in use, `a` twice as likely) and values 0-9, per container: Table, Table through dyn TableLike, InlineTable, InlineTable through dyn TableLike, the inline table doc[\"t\"][\"a\"] creates, Array, ArrayOfTables, toml::Map sorted (default build) and insertion-ordered (preserve_order build); a third of the map-like histories never index mutably; vector indexes 90% in range; plus fixed regression histories; plus the wide stream (see wide_rule). non-trivial = at least 3 calls with at least one key/index argument",
-        "samples": [cases[0], cases[len(all_regs) + 1], cases[len(cases) // 2], cases[-1]],
+        "rule": "random histories of API calls (length 1-30, thorough up to 200) over keys a-d (2-4 of them in use, `a` twice as likely) and values 0-9, per container: Table, Table through dyn TableLike, InlineTable, InlineTable through dyn TableLike, the inline table doc[\"t\"][\"a\"] creates, Array, ArrayOfTables, toml::Map sorted (default build) and insertion-ordered (preserve_order build); a third of the map-like histories never index mutably; vector indexes 90% in range; plus fixed regression histories; plus the systematic Entry API family (every one of entrem/entins/entget/entmut/entwith/entkey/entry/entocc on every key of a 3- and a 4-entry map and next to a placeholder, and every ordered pair of the six new calls on a 4-entry map, then iter, for Table, InlineTable and both through dyn TableLike); plus the wide stream (see wide_rule). non-trivial = at least 3 calls with at least one key/index argument",
+        "samples": [cases[0], cases[len(all_regs) + 1], cases[len(all_regs) + len(entry_systematic()) + 1],
+                    cases[len(cases) // 2], cases[-1]],
+        "entry_api_systematic_histories": len(entry_systematic()),
         "histories_per_container": hist_cont, "calls_per_operation": dict(sorted(hist_ops.items())),
         "history_length_histogram": {str(k): v for k, v in sorted(lens.items())},
         "histories_with_placeholders": with_placeholder,
         "wide_histories_per_container": wide,
-        "wide_rule": "wide stream: 21-40 entries over keys a-d + k00..k39 (vectors: 21-40 elements) with 2-4 distinct values, then 3-11 of sortby (value-only comparator: ties) / sort / retain / rem / remove_entry / re-insert / idxmut / extend; counted when such a call met >= 21 entries",
+        "wide_rule": "wide stream: 21-40 entries over keys a-d + k00..k39 (vectors: 21-40 elements) with 2-4 distinct values, then 3-11 of sortby (value-only comparator: ties) / sort / retain / rem / remove_entry / re-insert / idxmut / extend / Entry API (entry(k) then remove, insert, get, get_mut, or_insert_with, key); counted when such a call met >= 21 entries",
         "ordering_calls_on_21_or_more_entries": dict(sorted(big_calls.items())),
         "histories_deviating_from_reference": nviol,
         "deviation_classes": {f"{k[0]}:{k[1]}": len(v) for k, v in sorted(classes.items())},
